@@ -63,12 +63,18 @@ AssignFlags(p, d) == /\ Configured /\ cfg' = [cfg EXCEPT !.prim = p, !.divprim =
 
 (* which backend receives a find_answer/solve called with argument arg ("<none>" = no argument, *)
 (* "<class>" = a backend class object): a name, "<class>" itself, or "ValueError"              *)
+(* The three module backends call <module>.solver: when that module cannot be imported at the time of the call the   *)
+(* solve fails with ImportError - it is never delivered to another solver.                                           *)
+ModuleOf(name) == CASE name = "csugar" -> "pycsugar" [] name = "enigma_csp" -> "enigma_csp" [] name = "cspuz_core" -> "cspuz_core"
+                    [] OTHER -> "-"
 Dispatched(arg) == IF arg = "<class>" THEN "<class>"
                    ELSE LET name == IF arg = "<none>" THEN cfg.backend ELSE arg IN
-                        IF name \in Names THEN name ELSE "ValueError"
+                        IF name \notin Names THEN "ValueError"
+                        ELSE IF ModuleOf(name) # "-" /\ ModuleOf(name) \notin importable THEN "ImportError"
+                        ELSE name
 Dispatch(arg) ==
     /\ Configured
-    /\ obs' = [a |-> "dispatch", cfg |-> cfg, arg |-> arg, result |-> Dispatched(arg)]
+    /\ obs' = [a |-> "dispatch", cfg |-> cfg, arg |-> arg, importable |-> importable, result |-> Dispatched(arg)]
     /\ UNCHANGED <<envBackend, envPrim, envDiv, importable, cfg>>
 
 (* does a graph helper emit the native operator?  explicit: "none" | "true" | "false" *)
@@ -107,5 +113,6 @@ DefaultsSound ==
 AcyclicNeverNative == (obs.a = "graphcall" /\ obs.acyclic) => ~obs.native
 ExplicitWins == (obs.a = "graphcall" /\ obs.explicit # "none" /\ ~obs.acyclic) => (obs.native = (obs.explicit = "true"))
 (* a per-call backend name always wins over the configured default *)
-ArgWins == (obs.a = "dispatch" /\ obs.arg \in Names) => obs.result = obs.arg
+(* (the configured default never shows: the named backend gets the call, or - its module missing - nobody does) *)
+ArgWins == (obs.a = "dispatch" /\ obs.arg \in Names) => obs.result \in {obs.arg, "ImportError"}
 =============================================================================
